@@ -246,6 +246,11 @@ def gen_related(rng, world, prev):
         q["kw"] = rng.choice([{}, {}, {"optimization_params": {"max_nfev": 50}}])
         return q
     if g == "n2char":
+        r = world["roles"]
+        if "n2_ref" in r and "n2_main" in r and prev["q"] != "alpha_s" and rng.random() < 0.3:
+            # the same analysis on the other nitrogen isotherm (other units): shared kernels / curves must not be altered
+            q["iso"] = r["n2_ref"] if prev["iso"] == r["n2_main"] else r["n2_main"]
+            return q
         # same analysis again, or its sibling that shares a cached thickness curve / kernel
         if prev["q"] in ("t_plot", "psd_mesoporous") and rng.random() < 0.6:
             q["q"] = "psd_mesoporous" if prev["q"] == "t_plot" else "t_plot"
